@@ -16,14 +16,25 @@ CLAIMED.update({
  'C18': dict(text='Differential check of every StringView query against the real std::string_view (same pipeline) on symbolic bytes from {0x00,a,b,0x80,0xFF} (all 256 values in thorough), haystack length 0..4, needle 0..3, pos/n from {0..6,npos-1,npos}; results, copied bytes and exception kinds compared by SAT.',
              note='Cases undefined for std::string_view are assumed away (listed in the evidence). libstdc++ exception constructors are body-less stubs; only the exception type is compared.', ref='DESIGN.md §4 C18'),
 })
+CLAIMED.update({
+ 'C05': dict(text='Differential check of the real multiway_merge / stable_multiway_merge(_sentinels) code against a stable k-way selection loop: symbolic sorted sequences (each length 0..L), symbolic requested length, all 8-bit keys with identity tags; output, returned iterator and per-input advance decided by SAT per (k, algorithm, stable/unstable, sentinel, element size). Bounds: k = 0..3 with L = 2, k = 5 with L = 1 (quick); k <= 6, L <= 3, all four algorithms (thorough).',
+             note='k = 4 (4-way goto state machine) is only in the thorough tier: its bound tuning did not finish in 15 min. Sequences sorted by assumption; sentinel strictly greater than all keys.', ref='DESIGN.md §4 C05'),
+ 'C12': dict(text='Sequential handle histories: H symbolic operations out of 17 kinds (construct from raw, copy/move construct and assign incl. self and same-object, converting overloads, reset, swap, unify, destroy) over 3+1 handles and up to 4 objects; after every step reference_count() == number of handles pointing to the object, destruction exactly when that number reaches zero; CBMC heap checks. H = 3 quick, up to 7 thorough.',
+             note='The concurrent part of the property (handles released by several threads) is not yet covered by a registered query; atomics are sequentially consistent in the sequential histories.', ref='DESIGN.md §4 C12'),
+ 'C14': dict(text='Digest = fold of the compression function over the padded blocks. (1) Real MD5/SHA-1/SHA-256/SHA-512 process()/finalize()/digest*() code with the compression function replaced by a recorder (guarded hook): for every message length around 0, the padding edge (55/56, 111/112) and the block edge, and EVERY split into two process() calls (three in thorough), SAT decides that the blocks fed to the compression function equal the standard padding, states are chained from the IV, and raw/hex/HEX digests serialise the final state. (3) siphash_plain, siphash_sse2 and siphash() equal a SipHash-2-4 reference for all keys and all messages of length 0..16 (quick) / 0..24 (thorough).',
+             note='The compression functions themselves (obligation 2) are not decided by a registered query (monolithic miter measured: no verdict in 600 s); so the claim is: equality with the standard modulo the compression step. Lengths beyond two blocks are outside.', ref='DESIGN.md §4 C14'),
+ 'C17': dict(text='SplayTree<uint8_t> with and without duplicates: H symbolic operations (insert, erase, exists, find, clear incl. empty tree and reuse after clear) over 4 keys; after each step membership results, size, in-order key sequence vs a reference multiset, the library check(), and CBMC leak / double-free / use-after-free checks. H = 3..4 quick, up to 6 thorough.',
+             note='The LruCacheSet/LruCacheMap half of the property is not yet covered (std::unordered_map internals in libstdc++.so need contract stubs); only the SplayTree half is claimed.', ref='DESIGN.md §4 C17'),
+})
 NA_PENDING = {}
+HOLD = set(json.load(open(os.path.join(V, 'checks', 'hold.json'))))   # built but not yet registered (quick tier not stable yet)
 def main():
     props = [json.loads(l) for l in open(os.path.join(V, 'properties.jsonl'))]
     na_extra = json.load(open(os.path.join(V, 'checks', 'not_applicable.json')))
     checks = []; na = []
     for p in props:
         i = p['id']
-        if i in CLAIMED and i not in na_extra:
+        if i in CLAIMED and i not in na_extra and i not in HOLD:
             c = CLAIMED[i]
             checks.append(dict(property_id=i, quick_cmd='python3 checks/check.py %s quick' % i, thorough_cmd='python3 checks/check.py %s thorough' % i,
                                evidence_file='evidence/%s.json' % i, replay_cmd_template='python3 checks/replay.py {path}', engine='ll2c-cbmc',
